@@ -49,7 +49,10 @@ func c02Cipher(c *Ctx) {
 	if f == nil {
 		return
 	}
-	const maxLen, maxOff = 72, 9
+	maxLen, maxOff := 72, 9
+	if c.Tier == "thorough" {
+		maxLen, maxOff = 520, 17 // thirty-two iterations of the word loop, every residue, offsets past 16
+	}
 	type job struct{ n, off int }
 	var jobs []job
 	for n := 0; n <= maxLen; n++ {
@@ -103,7 +106,7 @@ func c02Cipher(c *Ctx) {
 		problems = append(problems, r...)
 	}
 	c.R.AddCells(len(jobs))
-	c.R.Sample(map[string]any{"rule": rule, "lengths": "0..72", "offsets": "0..9", "example": "n=21 offset=6: byte 17 -> (p17^k3)"})
+	c.R.Sample(map[string]any{"rule": rule, "lengths": fmt.Sprintf("0..%d", maxLen), "offsets": fmt.Sprintf("0..%d", maxOff), "example": "n=21 offset=6: byte 17 -> (p17^k3)"})
 	c.verdict(rule, rule+"/Cipher", c.P.FuncPos(f), uniq(problems), fmt.Sprintf("%d (length, offset) pairs: every byte is p_i XOR k_((offset+i) mod 4)", len(jobs)))
 }
 
